@@ -18,7 +18,7 @@ import numpy as np
 from bingo.symbolic_regression.agraph.agraph import AGraph
 
 from harness import gen_stacks as G
-from harness.common import harness_main, run_driver, stack_str, f2b
+from harness.common import harness_main, run_driver, stack_str, f2b, watchdog, Timeout
 
 FORMATS = ["console", "latex", "stack", "sympy"]
 
@@ -77,98 +77,99 @@ def run(ctx, rep):
         nops = rng.randrange(3, 26)
         for k in range(nops):
           try:
-              r = rng.random()
-              if k == 0 or r < 0.2:
-                  st = G.random_stack(rng, size, D, ops_pool, term_prob=0.35, const_prob=rng.choice([0.2, 0.5]), int_prob=0.1)
-                  how = rng.random()
-                  held = ag._command_array
-                  if k > 0 and how < 0.25 and held.shape == (size, 3):
-                      # the caller re-uses its work buffer: edits the array the equation already holds IN PLACE (after a read
-                      # refreshed the cache) and assigns the very same object again
-                      ag.get_complexity()
-                      ops.append("o")
-                      states.append(None)
-                      held.flags.writeable = True
-                      held[:] = np.array(st, dtype=int).reshape(-1, 3)
-                      ag.command_array = held
-                      rep.count("assign", "same object after in-place edit")
-                  elif k > 0 and how < 0.5 and held.shape == (size, 3):
-                      # view, read, edit the view, commit the view through the setter
-                      v = ag.mutable_command_array
-                      i0 = rng.randrange(size)
-                      ops.append("e %d %d %d %d" % (i0, *[int(t) for t in v[i0]]))      # obtaining the view notifies
-                      states.append(None)
-                      ag.get_complexity()
-                      ops.append("o")
-                      states.append(None)
-                      v[:] = np.array(st, dtype=int).reshape(-1, 3)
-                      ag.command_array = v
-                      rep.count("assign", "view, read, edit, commit")
-                  else:
-                      ag.command_array = np.array(st, dtype=int).reshape(-1, 3)
-                      rep.count("assign", "new array")
-                  ops.append("c " + stack_str(st))
-                  writes_after_obs += seen_obs
-              elif r < 0.4:
-                  i = rng.randrange(size)
-                  if i == 0 or rng.random() < 0.4:
-                      row = rng.choice([[G.VARIABLE, rng.randrange(D), 0], [G.CONSTANT, -1, -1], [G.INTEGER, rng.randrange(0, 4), 0]])
-                      row[2] = row[1]
-                  else:
-                      row = [rng.choice(ops_pool), rng.randrange(i), rng.randrange(i)]
-                  ag.mutable_command_array[i] = row
-                  ops.append(f"e {i} {row[0]} {row[1]} {row[2]}")
-                  writes_after_obs += seen_obs
-              elif r < 0.6:
-                  n = ag.get_number_local_optimization_params()     # callers ask first (this refreshes the cache)
-                  ops.append("o")
-                  states.append(None)
-                  vals = list(range(nconst_id, nconst_id + n))
-                  nconst_id += n
-                  ag.set_local_optimization_params([float(v) for v in vals])
-                  ops.append("p " + " ".join(map(str, vals)))
-              elif r < 0.9:
-                  ag.get_complexity()
-                  ops.append("o")
-                  seen_obs = True
-              elif r < 0.96:
-                  ag.fitness = 3.0
-                  ops.append("f 6")
-              else:
-                  ag.fit_set = False        # what Island.reset_fitness does: the stored value stays
-                  ops.append("z")
-              # ---------- oracle after every operation
-              case = {"use_simplification": use_simp, "ops": list(ops), "x": x.tolist()}
-              if ops[-1][0] in "ce" and (ag.fit_set or ag.fitness is not None):
-                  rep.violate("a write to the command array did not clear the stored fitness", "C18:write-keeps-fitness", case)
-                  ok = False
-                  break
-              probe = copy.deepcopy(ag)              # observe on a copy so that the observation itself does not perturb the history
-              try:
-                  o1 = observations(probe, x)
-                  o2 = observations(fresh_like(ag), x)
-              except Exception as exc:
-                  rep.violate(f"observation raised {type(exc).__name__}: {exc}", "C18:observation-raised", case)
-                  ok = False
-                  break
-              if o1 != o2:
-                  diff = [k_ for k_ in o1 if o1[k_] != o2[k_]]
-                  rep.violate(f"observations {diff} differ from those of a freshly constructed equation", "C18:differs-from-fresh", case)
-                  ok = False
-                  break
-              # copy: equal and independent
-              if rng.random() < 0.3:
-                  cp = ag.copy()
-                  if (cp.fitness, cp.fit_set, cp.genetic_age) != (ag.fitness, ag.fit_set, ag.genetic_age):
-                      rep.violate("copy differs in fitness / flag / age", "C18:copy-differs", case)
-                  before = observations(copy.deepcopy(ag), x)
-                  cp.mutable_command_array[0] = [G.INTEGER, 9, 9]
-                  cp.set_local_optimization_params([123.0] * cp.get_number_local_optimization_params())
-                  if observations(copy.deepcopy(ag), x) != before:
-                      rep.violate("changing a copy changed the original", "C18:copy-aliased", case)
-              states.append((np.asarray(ag._simplified_command_array).tolist() if not ag._modified else None,
-                             [float(c) for c in ag.constants], ag._needs_opt, ag._modified, ag.fit_set))
-          except (MemoryError, OverflowError, RecursionError):
+            with watchdog(20.0):
+                r = rng.random()
+                if k == 0 or r < 0.2:
+                    st = G.random_stack(rng, size, D, ops_pool, term_prob=0.35, const_prob=rng.choice([0.2, 0.5]), int_prob=0.1)
+                    how = rng.random()
+                    held = ag._command_array
+                    if k > 0 and how < 0.25 and held.shape == (size, 3):
+                        # the caller re-uses its work buffer: edits the array the equation already holds IN PLACE (after a read
+                        # refreshed the cache) and assigns the very same object again
+                        ag.get_complexity()
+                        ops.append("o")
+                        states.append(None)
+                        held.flags.writeable = True
+                        held[:] = np.array(st, dtype=int).reshape(-1, 3)
+                        ag.command_array = held
+                        rep.count("assign", "same object after in-place edit")
+                    elif k > 0 and how < 0.5 and held.shape == (size, 3):
+                        # view, read, edit the view, commit the view through the setter
+                        v = ag.mutable_command_array
+                        i0 = rng.randrange(size)
+                        ops.append("e %d %d %d %d" % (i0, *[int(t) for t in v[i0]]))      # obtaining the view notifies
+                        states.append(None)
+                        ag.get_complexity()
+                        ops.append("o")
+                        states.append(None)
+                        v[:] = np.array(st, dtype=int).reshape(-1, 3)
+                        ag.command_array = v
+                        rep.count("assign", "view, read, edit, commit")
+                    else:
+                        ag.command_array = np.array(st, dtype=int).reshape(-1, 3)
+                        rep.count("assign", "new array")
+                    ops.append("c " + stack_str(st))
+                    writes_after_obs += seen_obs
+                elif r < 0.4:
+                    i = rng.randrange(size)
+                    if i == 0 or rng.random() < 0.4:
+                        row = rng.choice([[G.VARIABLE, rng.randrange(D), 0], [G.CONSTANT, -1, -1], [G.INTEGER, rng.randrange(0, 4), 0]])
+                        row[2] = row[1]
+                    else:
+                        row = [rng.choice(ops_pool), rng.randrange(i), rng.randrange(i)]
+                    ag.mutable_command_array[i] = row
+                    ops.append(f"e {i} {row[0]} {row[1]} {row[2]}")
+                    writes_after_obs += seen_obs
+                elif r < 0.6:
+                    n = ag.get_number_local_optimization_params()     # callers ask first (this refreshes the cache)
+                    ops.append("o")
+                    states.append(None)
+                    vals = list(range(nconst_id, nconst_id + n))
+                    nconst_id += n
+                    ag.set_local_optimization_params([float(v) for v in vals])
+                    ops.append("p " + " ".join(map(str, vals)))
+                elif r < 0.9:
+                    ag.get_complexity()
+                    ops.append("o")
+                    seen_obs = True
+                elif r < 0.96:
+                    ag.fitness = 3.0
+                    ops.append("f 6")
+                else:
+                    ag.fit_set = False        # what Island.reset_fitness does: the stored value stays
+                    ops.append("z")
+                # ---------- oracle after every operation
+                case = {"use_simplification": use_simp, "ops": list(ops), "x": x.tolist()}
+                if ops[-1][0] in "ce" and (ag.fit_set or ag.fitness is not None):
+                    rep.violate("a write to the command array did not clear the stored fitness", "C18:write-keeps-fitness", case)
+                    ok = False
+                    break
+                probe = copy.deepcopy(ag)              # observe on a copy so that the observation itself does not perturb the history
+                try:
+                    o1 = observations(probe, x)
+                    o2 = observations(fresh_like(ag), x)
+                except Exception as exc:
+                    rep.violate(f"observation raised {type(exc).__name__}: {exc}", "C18:observation-raised", case)
+                    ok = False
+                    break
+                if o1 != o2:
+                    diff = [k_ for k_ in o1 if o1[k_] != o2[k_]]
+                    rep.violate(f"observations {diff} differ from those of a freshly constructed equation", "C18:differs-from-fresh", case)
+                    ok = False
+                    break
+                # copy: equal and independent
+                if rng.random() < 0.3:
+                    cp = ag.copy()
+                    if (cp.fitness, cp.fit_set, cp.genetic_age) != (ag.fitness, ag.fit_set, ag.genetic_age):
+                        rep.violate("copy differs in fitness / flag / age", "C18:copy-differs", case)
+                    before = observations(copy.deepcopy(ag), x)
+                    cp.mutable_command_array[0] = [G.INTEGER, 9, 9]
+                    cp.set_local_optimization_params([123.0] * cp.get_number_local_optimization_params())
+                    if observations(copy.deepcopy(ag), x) != before:
+                        rep.violate("changing a copy changed the original", "C18:copy-aliased", case)
+                states.append((np.asarray(ag._simplified_command_array).tolist() if not ag._modified else None,
+                               [float(c) for c in ag.constants], ag._needs_opt, ag._modified, ag.fit_set))
+          except (MemoryError, OverflowError, RecursionError, Timeout):
             # the algebraic simplifier ran out of resources on huge integer powers (recorded under C03: F3b family); abandon this history
             rep.count("cas_resource_error")
             ok = False
